@@ -38,9 +38,9 @@ Lemma current_table_with_notify_sound : sound_table (current_table ++ [aux_row_c
 Proof. vm_compute. reflexivity. Qed.
 Lemma pinned_table_unsound : sound_table pinned_table = false.
 Proof. vm_compute. reflexivity. Qed.
-Lemma table_of_fixed_is_current : table_of true true true true false = current_table.
+Lemma table_of_fixed_is_current : table_of true true true true false true = current_table.
 Proof. vm_compute. reflexivity. Qed.
-Lemma table_of_pinned_is_pinned : table_of false false false false false = pinned_table.
+Lemma table_of_pinned_is_pinned : table_of false false false false false false = pinned_table.
 Proof. vm_compute. reflexivity. Qed.
 
 (* world invariant used by the "unauthenticated" theorem: identity 0 is nobody *)
@@ -182,6 +182,9 @@ Proof.
   exists x. auto.
 Qed.
 
+Lemma client_mappings_sub w a m : In m (client_mappings w a) -> In m (w_maps w).
+Proof. unfold client_mappings. intro H. apply filter_In in H. tauto. Qed.
+
 Lemma world_eta w : with_reg w (w_online w) (w_bind w) = w.
 Proof. destruct w; reflexivity. Qed.
 
@@ -297,11 +300,11 @@ Proof. exact (identity_from_connection_gen _ (sound_no_packet _ current_table_wi
 (* the statement has content: a table that reads the identity from the packet does depend on it *)
 Definition forged_table : list row := [R 76 None RRegistry IdPacket true PMapParty EMapDelete].
 Definition w_demo : world :=
-  {| w_maps := [{| m_id := 0; m_listen := 1; m_target := 2; m_socks := true; m_sent := 0; m_recv := 0 |};
-                {| m_id := 1; m_listen := 0; m_target := 2; m_socks := true; m_sent := 0; m_recv := 0 |}];
+  {| w_maps := [{| m_id := 0; m_listen := 1; m_target := 2; m_socks := true; m_sent := 0; m_recv := 0; m_active := true |};
+                {| m_id := 1; m_listen := 0; m_target := 2; m_socks := true; m_sent := 0; m_recv := 0; m_active := true |}];
      w_codes := [{| c_id := 0; c_owner := 2; c_act := 0 |}]; w_doms := [{| d_id := 0; d_owner := 1 |}];
      w_online := [1; 2; 3]; w_bind := [(1, 1); (2, 2); (3, 3)]; w_nm := 2; w_nc := 1; w_nd := 1;
-     w_xnode := false; w_remote := [] |}.
+     w_xnode := false; w_remote := []; w_index := [(1, 0); (2, 0); (2, 1)] |}.
 Definition c_demo (t : N) (obj : option N) (tgt : option cid) : cmd :=
   {| k_type := t; k_resp := false; k_obj := obj; k_tgt := tgt; k_dir := 0; k_sent := 1000000; k_recv := 7; k_valid := true |}.
 
@@ -438,7 +441,7 @@ Proof.
     destruct (r_eff r) eqn:E; cbn [stateless] in S; try discriminate S; cbn [run].
     + (* EMapList *)
       destruct G as [Hp Ha]; try rewrite Hp. cbn. split; [tauto|]. split; [tauto|].
-      intros i Hi. apply in_map_filter in Hi. destruct Hi as [m [Hin [Hid Hsel]]].
+      intros i Hi. apply in_map_filter in Hi. destruct Hi as [m [Hin [Hid Hsel]]]. apply client_mappings_sub in Hin.
       exists m. split; [exact Hin|]. split; [exact Hid|]. split; [exact Ha|].
       exact (sel_party a m (k_dir c) Hsel).
     + (* EMapGet *)
@@ -474,7 +477,7 @@ Proof.
         split; [exact G|]. cbn. now left.
     + (* EConfigGet *)
       destruct G as [Hp Ha]; try rewrite Hp. cbn. split; [tauto|]. split; [tauto|].
-      intros i Hi. apply in_map_filter in Hi. destruct Hi as [m [Hin [Hid Hsel]]].
+      intros i Hi. apply in_map_filter in Hi. destruct Hi as [m [Hin [Hid Hsel]]]. apply client_mappings_sub in Hin.
       exists m. split; [exact Hin|]. split; [exact Hid|]. split; [exact Ha|].
       apply orb_prop in Hsel; destruct Hsel as [H|H]; apply N.eqb_eq in H; auto.
     + (* ETraffic *)
@@ -698,16 +701,15 @@ Proof.
       intros t ty s Hd. apply deliver_in in Hd. destruct Hd as [Heq Hne]. injection Heq as -> -> ->.
       split; [exact Ha|]. split; [exact Hne|]. right.
       subst tt. destruct (k_tgt c) as [t0|].
-      * destruct (reaches a t0 (w_maps w)) eqn:Er; [|contradiction Ent; reflexivity]. now apply reaches_exists.
+      * destruct (reaches a t0 (client_mappings w a)) eqn:Er; [|contradiction Ent; reflexivity].
+        destruct (reaches_exists _ _ _ Er) as [m [Hin Hm]]. exists m. split; [exact (client_mappings_sub w a m Hin)|exact Hm].
       * destruct (a =? 0); [contradiction Ent; reflexivity|].
         unfold default_target in *.
-        destruct (find (fun m => m_socks m && ((m_listen m =? a) || (m_target m =? a)) && negb (m_target m =? 0)) (w_maps w)) as [m|] eqn:Ff;
+        destruct (find (fun m => m_socks m && m_active m && negb (m_target m =? 0) && (negb true || (m_listen m =? a))) (client_mappings w a)) as [m|] eqn:Ff;
           [|contradiction Ent; reflexivity].
         apply find_some in Ff. destruct Ff as [Hin Hm].
-        apply andb_prop in Hm. destruct Hm as [Hm _]. apply andb_prop in Hm. destruct Hm as [_ Hm].
-        apply orb_prop in Hm. destruct Hm as [Hm|Hm]; apply N.eqb_eq in Hm.
-        -- exists m. auto.
-        -- exfalso. apply Hne. exact Hm.
+        apply andb_prop in Hm. destruct Hm as [_ Hm]. cbn [negb orb] in Hm. apply N.eqb_eq in Hm.
+        exists m. split; [exact (client_mappings_sub w a m Hin)|]. split; [exact Hm|reflexivity].
     + (* ENotify *)
       destruct (k_tgt c) as [t|]; [|apply reach_ok_mk].
       match goal with |- context [if ?b then _ else _] => destruct b end; [apply reach_ok_mk|].
@@ -922,11 +924,12 @@ Proof.
   intros [H|H]; [auto|]. destruct (IH H); auto.
 Qed.
 
-Definition event_ok (ev : event) : Prop := match ev with EvReauth _ c => c <> 0 | EvRemove _ => True end.
+Definition event_ok (ev : event) : Prop := match ev with EvReauth _ c => c <> 0 | _ => True end.
 
 Lemma event_preserves_wf ev w : event_ok ev -> wf_world w -> wf_world (apply_event ev w).
 Proof.
-  intros He [Hon [Hdom Hbind]]. destruct ev as [i c|i]; cbn [apply_event event_ok] in *.
+  intros He [Hon [Hdom Hbind]]. destruct ev as [i c|i|i|i side c|i b]; cbn [apply_event event_ok] in *;
+    try (split; [exact Hon|split; [exact Hdom|exact Hbind]]).
   - split; [|split; [exact Hdom|]]; cbn [with_reg w_online w_bind w_doms].
     + intro H. apply insert_cid_in in H. destruct H as [H|H]; [now apply He|]. apply Hon. eapply remove_cid_sub; eauto.
     + intros j x Hin. apply insert_bind_in in Hin. destruct Hin as [H|H]; [injection H as _ ->; exact He|now apply (Hbind j x)].
@@ -1073,7 +1076,7 @@ Proof. split; reflexivity. Qed.
 (* a two-node world: client 2 (target of mapping #0, listen client 1) is connected on another node *)
 Definition w_cluster : world :=
   {| w_maps := w_maps w_demo; w_codes := []; w_doms := []; w_online := [1; 3]; w_bind := [(1, 1); (3, 3)];
-     w_nm := 2; w_nc := 0; w_nd := 0; w_xnode := true; w_remote := [2] |}.
+     w_nm := 2; w_nc := 0; w_nd := 0; w_xnode := true; w_remote := [2]; w_index := w_index w_demo |}.
 
 (* on the executable model: the listen client's request is relayed to the other node; the stranger's, the unauthenticated
    connection's and the unknown connection's are not — and with the relay in front of the check all of them are *)
@@ -1154,4 +1157,50 @@ Lemma ungated_rows_success_but_inert :
   /\ inert w_demo (exec current_table w_demo KUnknown 0 (c_demo 87 None None))
   /\ inert w_demo (exec current_table w_demo KFresh 0 (c_demo 86 (Some 999) None))
   /\ inert w_demo (exec current_table w_demo KPending 0 (c_demo 11 None None)).
+Proof. repeat split; vm_compute; reflexivity. Qed.
+
+(* ------------------------------------------------------------------------------------------ *)
+(* stale per-client index; decisions taken on the CURRENT store                               *)
+(* ------------------------------------------------------------------------------------------ *)
+(* mapping #0 handed from client 1 to client 3 (MigrateClientMappings): client 1's index entry is now stale *)
+Definition w_stale : world := apply_event (EvSetParty 0 false 3) w_demo.
+
+(* whatever the index contains, the list / config answers name only mappings the caller is CURRENTLY a party of
+   (instance of party_only_mappings for worlds with a stale index); answering with the raw index does not *)
+Lemma stale_index_listing :
+  conn_identity w_stale (KConn 1) = 1
+  /\ maplist_raw_index w_stale 1 = [0]
+  /\ res_dm (exec current_table w_stale (KConn 1) 0 (c_demo 74 None None)) = []
+  /\ res_dm (exec current_table w_stale (KConn 1) 0 (c_demo 50 None None)) = []
+  /\ ~ (exists m, In m (w_maps w_stale) /\ m_id m = 0 /\ partyP 1 m).
+Proof.
+  repeat split; try (vm_compute; reflexivity).
+  intros [m [Hin [Hid [_ Hp]]]]. vm_compute in Hin. destruct Hin as [<-|[<-|[]]]; cbn in Hid, Hp; [|discriminate Hid].
+  destruct Hp as [H|H]; discriminate H.
+Qed.
+
+(* the default DNS target as found: taken from the (stale) index without asking who the mapping's listen client is now —
+   the former listen client still reaches client 2; with the listen check it does not *)
+Lemma lax_default_target_refuted :
+  res_deliv (exec (common_rows ++ lax_dns_rows) w_stale (KConn 1) 0 (c_demo 121 None None)) = [(2, 121, 0)]
+  /\ ~ reach_ok 1 w_stale (exec (common_rows ++ lax_dns_rows) w_stale (KConn 1) 0 (c_demo 121 None None))
+  /\ res_deliv (exec current_table w_stale (KConn 1) 0 (c_demo 121 None None)) = [].
+Proof.
+  split; [vm_compute; reflexivity|]. split; [|vm_compute; reflexivity].
+  intros [H _]. specialize (H 2 121 0). vm_compute in H.
+  destruct (H (or_introl eq_refl)) as [_ [_ [[E _]|[m [Hin [Hl _]]]]]]; [discriminate E|].
+  destruct Hin as [<-|[<-|[]]]; discriminate Hl.
+Qed.
+
+(* a remembered default target (a seeded breaking change): after the mapping is deleted the cached decision still names
+   client 2, the decision on the current store names nobody *)
+Lemma cached_default_target_refuted :
+  let w1 := apply_event (EvDelMap 0) w_demo in
+  let cache := snd (dns_default_cached [] w_demo 1) in
+  fst (dns_default_cached [] w_demo 1) = 2
+  /\ fst (dns_default_cached cache w1 1) = 2
+  /\ default_target true 1 (client_mappings w1 1) = 0
+  /\ map res_deliv (fst (run_history current_table w_demo
+        [HCmd (KConn 1) 0 (c_demo 121 None None); HEv (EvDelMap 0); HCmd (KConn 1) 0 (c_demo 121 None None);
+         HEv (EvSetActive 1 false); HCmd (KConn 2) 0 (c_demo 90 (Some 0) None)])) = [[(2, 121, 0)]; []; []].
 Proof. repeat split; vm_compute; reflexivity. Qed.
